@@ -34,7 +34,7 @@ ANCHORS = ['manifest:ManifestFile.load', 'manifest:ManifestFile.dump',
            'manifest:ManifestPathEntry.decode_char',
            'compression:open_potentially_compressed_path']
 REQUIRED = ['manifest:ManifestFile.load', 'manifest:ManifestFile.dump',
-            'contract:encoded_path']
+            'contract:encoded_path', 'redump_checked']
 ASSUMPTIONS = ['timestamps have whole seconds and no tzinfo (GLEP 74 has no '
                'sub-second field)',
                'checksum names/values are non-empty tokens without whitespace']
@@ -154,6 +154,32 @@ def roundtrip(ctx, entries_m, case, kind):
                       {'text': text, 'want': want, 'got': back})
         return False
     return True
+
+
+def redump_after_edit(ctx, entries_m, case):
+    """History on live entry objects: dump, change a path in place (as the loader
+    does when a Manifest is renamed), dump again: the second text must carry the
+    new path."""
+    idx = [i for i, e in enumerate(entries_m) if e['tag'] not in ('TIMESTAMP', 'AUX')]
+    if not idx:
+        return
+    try:
+        eg = [adapt.to_gemato(e) for e in entries_m]
+        g_dump(eg)
+        i = idx[len(entries_m) % len(idx)]
+        newpath = eg[i].path + 'Z' if not eg[i].path.endswith('/') else eg[i].path + 'Z'
+        eg[i].path = newpath
+        t2 = g_dump(eg)
+        got = mtext.parse(t2)
+    except Exception as exc:
+        ctx.violation('redump-raises:' + adapt.exc_key(exc), 'second dump after an '
+                      'in-place path change raised %r' % (exc,), case)
+        return
+    ctx.count('redump_checked')
+    if len(got) != len(entries_m) or got[i].get('path') != newpath:
+        ctx.violation('stale-written-path', 'entry path changed in place to %r but the '
+                      'next dump still wrote %r' % (
+                          newpath, got[i].get('path') if i < len(got) else None), case)
 
 
 def fixed_point(ctx, text, case):
@@ -354,6 +380,7 @@ def exec_case(case, ctx):
                  nontrivial=bool(ents), klass=k)
         roundtrip(ctx, ents, case, k)
         if ents:
+            redump_after_edit(ctx, ents, case)
             ctx.sample(case, k)
     elif k == 'fix':
         verdict, _, reasons = classify.classify_text(case['text'])
